@@ -258,5 +258,44 @@ func Extract() *fx.Group {
 	}
 	g.Str("sqModeExpr", expr)
 	g.Bool("sqModeUnixBits", expr != "" && expr != "uint16(i.mode)")
+	// --- second round: the constants the TF / id table / inode type / write-back mirrors are defined over
+	// ext4: the flag bits inodeFlags has a field for (what survives parseInodeFlags -> toInt)
+	var known int64
+	nflags := 0
+	for k, v := range env {
+		if strings.HasPrefix(k, "inodeFlag") && k != "inodeFlag" {
+			known |= v
+			nflags++
+		}
+	}
+	if nflags == 0 {
+		g.Missing("inodeFlag*")
+	}
+	g.Nat("ext4InodeFlagsKnown", known)
+	// squashfs: id entry size, metadata block size, inode type codes
+	sq := intConsts(pkgFiles("filesystem/squashfs")...)
+	one := func(env map[string]int64, k string) int64 {
+		v, ok := env[k]
+		if !ok {
+			g.Missing(k)
+		}
+		return v
+	}
+	g.Nat("sqIdEntrySize", one(sq, "idEntrySize"))
+	g.Nat("sqMetadataBlockSize", one(sq, "metadataBlockSize"))
+	var sqTypes []int64
+	for _, k := range []string{"inodeBasicDirectory", "inodeBasicFile", "inodeBasicSymlink", "inodeBasicBlock", "inodeBasicChar", "inodeBasicFifo", "inodeBasicSocket",
+		"inodeExtendedDirectory", "inodeExtendedFile", "inodeExtendedSymlink", "inodeExtendedBlock", "inodeExtendedChar", "inodeExtendedFifo", "inodeExtendedSocket"} {
+		sqTypes = append(sqTypes, one(sq, k))
+	}
+	g.Nats("sqInodeTypes", sqTypes)
+	// Rock Ridge TF: the flag bit of each stamp kind, in the order parseTimestamps walks them, and the long-form bit
+	iso := intConsts(pkgFiles("filesystem/iso9660")...)
+	var tf []int64
+	for _, k := range []string{"rockRidgeTimestampCreation", "rockRidgeTimestampModify", "rockRidgeTimestampAccess", "rockRidgeTimestampAttribute",
+		"rockRidgeTimestampBackup", "rockRidgeTimestampExpiration", "rockRidgeTimestampEffective", "rockRidgeTimestampLongForm"} {
+		tf = append(tf, one(iso, k))
+	}
+	g.Nats("rrTfBits", tf)
 	return g
 }
